@@ -3,6 +3,7 @@ import PlcProofs.Lemmas.RenderExpr
 import PlcModel.Parse.Lit
 import PlcProofs.Lemmas.MirrorExpr
 import PlcProofs.Lemmas.RenderWords
+import PlcProofs.Lemmas.MirrorPrint
 
 /-!
 # C10 — re-rendering round-trips
@@ -19,6 +20,12 @@ What is proved (for trees of unbounded size and depth):
   functions of `PlcModel/Parse/Expr.lean` that the check compares with `parse_program`, driven by the
   generated table): the renderer's parenthesisation of every expression tree over names, unary and binary
   operators is read back to exactly that tree, with the fuel the driver uses.
+* `mirror_reads_printed_statements` — one level up: for every statement tree (`MX.A`: assignments, IF / ELSIF / ELSE, CASE with
+  integer selector lists, FOR [BY], WHILE, REPEAT, invocations with named inputs, EXIT, RETURN, nested to any depth) the
+  printing `MX.Al.pr` — keywords as the renderer spells them, every expression in the renderer's parenthesisation, one `;`
+  after each statement, ELSE only before a non-empty branch — is read back by the parser mirror to exactly the dsl trees of
+  the list.  The only hypotheses are about the leaves (names are identifier tokens, operators are rows of `Gen.prec`,
+  selector literals are integers) and the bodies the grammar wants non-empty.
 * `renderer_model_prints_full_parentheses` — the renderer model `Render.RE`, which the check compares
   lexeme by lexeme with `write_to_string` on every generated library, writes exactly that printing
   for the dsl tree of every expression over the operators of the generated precedence table.
@@ -64,6 +71,24 @@ theorem mirror_reads_renderer_parenthesisation (lp rp : Item) (hlp : lp.ty = "Le
   apply MX.expression_reads _ rest _ (MX.E.full_wf lp rp hlp hrp e he 0) hrest
   apply MX.fuelFor_enough
   simp
+
+/-- **Printed statements are read back** (statement nesting, renderer's spelling and parenthesisation). -/
+theorem mirror_reads_printed_statements (l : MX.Al) (hl : l.Ok) (hne : l.isNil = false) (K : Item) (R : List Item)
+    (hK : MX.isCloser K.ty = true) :
+    Parse.statementList (Parse.fuelFor (l.pr.toks ++ K :: R).length) (l.pr.toks ++ K :: R) = some (l.sxs, K :: R) :=
+  MX.printed_statements_read_back l hl hne K R hK
+
+/-- non-vacuity: `IF a THEN x := b; ELSIF c THEN EXIT; END_IF; t(IN := a);` is `Ok`, and its printing starts `IF a THEN x :=` -/
+example :
+    let id (s : String) : Item := ⟨false, "Identifier", 0, 0, 0, 0, s.toList⟩
+    let l : MX.Al := .cons (.ifA (.leaf (id "a")) (.cons (.assign (id "x") (.leaf (id "b"))) .nil)
+        (.cons (.leaf (id "c")) (.cons .exitA .nil) .nil) .nil)
+      (.cons (.callA (id "t") (id "IN") (.leaf (id "a")) []) .nil)
+    l.Ok ∧ l.isNil = false ∧ (l.pr.toks.take 5).map (·.ty) = ["If", "Identifier", "Then", "Identifier", "Assignment"] := by
+  intro id l
+  refine ⟨⟨⟨rfl, ⟨⟨rfl, rfl⟩, trivial⟩, ⟨rfl, ⟨trivial, trivial⟩, rfl, trivial⟩, trivial⟩, ⟨rfl, rfl, rfl, ?_⟩, trivial⟩, rfl, by decide⟩
+  intro m hm
+  cases hm
 
 /-- The renderer model writes the fully parenthesised printing (operators = rows of `Gen.prec`). -/
 theorem renderer_model_prints_full_parentheses (e : Expr) (h : RenderExpr.OpsOk e) (k : Nat) :
